@@ -118,7 +118,24 @@ Proof.
     [exact Hs|apply Forall_cons; [apply (bn_mono nat 1 3); [repeat constructor|exact Ht]|apply Forall_nil]|intro E; vm_compute in E; discriminate|reflexivity].
 Qed.
 
+(* the JSON object builder is inside [built] since its calls are modelled (Model/Ctor.v):
+   JsonBuildObject(true).Prop("k", N("a")).Unset("z") in three levels *)
+Example C20_built_json_example :
+  let a := set_self (EIdent (@ENil nat) "a") in
+  built nat (EJson true [("k"%string, a)]).
+Proof.
+  intros a. exists 3.
+  assert (Ha : fst (builtn nat 1) a) by (apply (bn_ctor nat 0 "N" [AStr "a"]); [apply Forall_cons; [exact I|apply Forall_nil]|reflexivity]).
+  assert (Hj : fst (builtn nat 1) (EJson true [])) by (apply (bn_ctor nat 0 "JsonBuildObject" [ABool true]); [apply Forall_cons; [exact I|apply Forall_nil]|reflexivity]).
+  assert (Hp : fst (builtn nat 2) (EJson true [("k"%string, a)])).
+  { apply (bn_meth nat 1 "JsonBuildObjectBuilder.Prop" (EJson true []) [AStr "k"; AExp a]);
+      [exact Hj|apply Forall_cons; [exact I|apply Forall_cons; [exact Ha|apply Forall_nil]]|reflexivity]. }
+  apply (bn_meth nat 2 "JsonBuildObjectBuilder.Unset" (EJson true [("k"%string, a)]) [AStr "z"]);
+    [exact Hp|apply Forall_cons; [exact I|apply Forall_nil]|reflexivity].
+Qed.
+
 Print Assumptions C20_no_panic.
+Print Assumptions C20_built_json_example.
 Print Assumptions C20_built_no_panic.
 Print Assumptions C20_built_example.
 Print Assumptions C20_constructor_preserves_wf.
